@@ -60,8 +60,22 @@ def check(case, stats):
     cfg = case["sim"]
     s1 = _new(cfg)
     failed = 0
-    for t in case["loads"]:
+    probed = 0
+    for i, t in enumerate(case["loads"]):
         failed += int(_load(s1, t) is not None)
+        if case.get("probe") and case["probe"][i % len(case["probe"])]:
+            # observe (and, when there is nothing to execute, poke) the not-yet-started simulation between loads:
+            # is_done() is a pure query, and step()/run() on a simulation that is already done are no-ops, so the
+            # simulation still "has not started" afterwards
+            try:
+                if s1.is_done() and not s1.has_started:
+                    probed += 1
+                    s1.step()
+                    s1.run()
+            except Exception as ex:
+                raise Violation("probe-raises", case, f"is_done/step/run on a not-started simulation after load #{i}: {type(ex).__name__}: {ex}")
+            if s1.has_started:
+                raise Violation("no-op-step-started-the-simulation", case, f"step()/run() on a done, not-started simulation set has_started (after load #{i})")
     err1 = _load(s1, case["final"])
     s2 = _new(cfg)
     err2 = _load(s2, case["final"])
@@ -75,6 +89,8 @@ def check(case, stats):
     tags = {"kind:" + cfg["kind"]}
     if failed:
         tags.add("failed-load-before")
+    if probed:
+        tags.add("probed-while-done-before-final-load")
     if err1 is not None:
         stats.count(case, failed >= 1, tags | {"final-load-fails"}, sample_tag=cfg["kind"] + ":final-fails")
         return
@@ -184,7 +200,7 @@ def case_strategy(draw):
     loads = draw(st.lists(anytext, max_size=4))
     valid = draw(st.integers(0, 4)) < 3
     final = draw(good) if valid else draw(st.one_of(st.sampled_from(EMPTY), st.sampled_from(broken)))
-    return {"sim": cfg, "loads": loads, "final": final, "final_valid": valid, "bound": draw(st.sampled_from([60, 300])),
+    return {"sim": cfg, "loads": loads, "probe": draw(st.lists(st.booleans(), min_size=1, max_size=4)), "final": final, "final_valid": valid, "bound": draw(st.sampled_from([60, 300])),
             "after": draw(st.lists(st.sampled_from(after_calls), min_size=1, max_size=5))}
 
 
